@@ -637,7 +637,8 @@ class HState:
                         got.add(view0[x.num - 1])
                         cid = None
                         for k in data_keys:
-                            cid = cid or msgs.cid_of(it.get(k))
+                            if isinstance(it[k], (bytes, bytearray)):
+                                cid = cid or msgs.cid_of(it.get(k))
                         if cid and mbm is not None:
                             self.reveal(mbm.name, mbm.vv, view0[x.num - 1] if "UID" not in it else int(it["UID"]), cid, "FETCH")
             want = {m.uid for m in tgt}
@@ -865,6 +866,56 @@ class HState:
             self.check_recent_disk("observe")
         if "C17" in checks:
             self.observe_namespace()
+        if "C16" in checks:
+            self.observe_items()
+
+    def observe_items(self, sname="I"):
+        """C16 on whatever state a history has reached: for every message of every selectable mailbox the
+        data items agree with each other (RFC822.SIZE = octets of BODY[] = BODY[HEADER] + BODY[TEXT],
+        RFC822 = BODY[]) and BODY[] is the stored message the reference model expects at that UID."""
+        o = self.sess(sname)
+        o.on_resp = None
+        for name, mb in self.model.mboxes.items():
+            if mb.noselect or not mb.msgs:
+                continue
+            r, _ = o.do(f"EXAMINE {_q(name)}")
+            if r is None or r.typ != "OK":
+                continue
+            r, resps = o.do("FETCH 1:* (UID RFC822.SIZE BODY.PEEK[] BODY.PEEK[HEADER] BODY.PEEK[TEXT])")
+            for x in resps:
+                if x.kind != "untagged" or x.typ != "FETCH" or x.errors:
+                    continue
+                try:
+                    it = fetch_items(x)
+                except Exception:
+                    continue
+                if "BODY[]" not in it or "UID" not in it:
+                    continue
+                full = bytes(it["BODY[]"] or b"")
+                det = {"mbox": _mclass(name)}
+                if "RFC822.SIZE" in it and int(it["RFC822.SIZE"]) != len(full):
+                    self.fail("C16.size-vs-body", det, len(full), int(it["RFC822.SIZE"]))
+                if it.get("BODY[HEADER]") is not None and it.get("BODY[TEXT]") is not None and bytes(it["BODY[HEADER]"]) + bytes(it["BODY[TEXT]"]) != full:
+                    self.fail("C16.header-plus-text", det, len(full), len(bytes(it["BODY[HEADER]"])) + len(bytes(it["BODY[TEXT]"])))
+                m = mb.by_uid(int(it["UID"]))
+                if m is not None and msgs.cid_of(full) != m.cid:
+                    self.fail("C16.body-of-other-message", det, m.cid, msgs.cid_of(full))
+            # the same sizes drive SEARCH LARGER / SMALLER
+            sizes = {}
+            for x in resps:
+                if x.kind == "untagged" and x.typ == "FETCH" and not x.errors:
+                    try:
+                        it = fetch_items(x)
+                        sizes[x.num] = len(bytes(it["BODY[]"] or b""))
+                    except Exception:
+                        pass
+            if sizes:
+                cut = sorted(sizes.values())[len(sizes) // 2]
+                r, resps = o.do(f"SEARCH LARGER {cut}")
+                got = sorted(int(v) for x in resps if x.kind == "untagged" and x.typ == "SEARCH" for v in x.data)
+                want = sorted(n for n, z in sizes.items() if z > cut)
+                if r is not None and r.typ == "OK" and got != want:
+                    self.fail("C16.search-larger-vs-body", {"mbox": _mclass(name)}, want, got)
 
     def observe_list(self, sname="O"):
         """LIST "" * and LSUB "" * as {name: frozenset(attributes)} (minus \\Marked/\\Unmarked)."""
@@ -924,6 +975,9 @@ class HState:
                 for x in resps:
                     if x.kind == "untagged" and x.typ == "FETCH":
                         it = fetch_items(x)
+                        if "UID" not in it:
+                            self.fail("C03.uid-not-a-number", {"where": "UID FETCH"}, "UID <nz-number>", x.raw[:80].decode("latin-1"))
+                            continue
                         byseq[x.num] = {"uid": int(it["UID"]), "cid": msgs.cid_of(it.get(SUBJ_KEY)),
                                         "idate": bytes(it["INTERNALDATE"]).decode() if it.get("INTERNALDATE") else None}
                 r, resps = o.do("UID SEARCH ALL")
@@ -976,13 +1030,13 @@ class HState:
                                                  "missing": sorted(set(want) - set(got))[:3], "extra": sorted(set(got) - set(want))[:3]},
                               sorted(want), sorted(got))
                     continue
-                if cmd == "LIST":
-                    for nm, w_ in want.items():
-                        at = got[nm]
-                        if ("\\Noselect" in at) != w_["noselect"]:
-                            self.fail("C17.noselect-attr", {"pat": pat, "want": w_["noselect"]}, w_, sorted(at))
-                        if ("\\HasChildren" in at) != w_["haschildren"] or ("\\HasNoChildren" in at) == w_["haschildren"]:
-                            self.fail("C17.haschildren-attr", {"pat": pat, "want": w_["haschildren"]}, w_, sorted(at))
+                for nm, w_ in want.items():
+                    at = got[nm]
+                    if cmd == "LIST" and ("\\Noselect" in at) != w_["noselect"]:
+                        self.fail("C17.noselect-attr", {"pat": pat, "want": w_["noselect"]}, w_, sorted(at))
+                    # "\HasChildren exactly when an existing mailbox lies below it": whatever filter the listing applies
+                    if ("\\HasChildren" in at) != w_["haschildren"] or ("\\HasNoChildren" in at) == w_["haschildren"]:
+                        self.fail("C17.haschildren-attr", {"cmd": cmd, "pat": pat, "want": w_["haschildren"]}, w_, sorted(at))
         # a deleted mailbox is not selectable; an existing one is
         for name in self.cfg.get("names", ()):
             mb = self.model.mb(name)
@@ -1185,6 +1239,10 @@ class HState:
 
     # -- canonical state (from implementation internals; used only for deduplication) -------------------------------------
     def canon(self) -> str:
+        """Canonical form of the implementation state, used only to merge histories.  Merging is safe only
+        if merged states have the same futures, so every plain-data attribute of the mailbox, server and
+        session objects takes part *by default* (a cache or index nobody listed here still splits states);
+        excluded are only attributes known not to influence behaviour (statistics, tags, absolute times)."""
         srv = self.w.srv
         parts = []
         for name in sorted(srv.active_mailboxes):
@@ -1194,7 +1252,10 @@ class HState:
                           tuple(sorted((k, tuple(sorted(v))) for k, v in mb.sequences.items() if v)),
                           tuple(sorted(mb.attributes)), mb.subscribed, mb.num_msgs, mb.num_recent, mb.optional_resync,
                           mb.deleted, hasattr(mb, "mgmt_task") and not mb.mgmt_task.done(), (fm > mb.mtime) - (fm < mb.mtime),
-                          tuple(sorted(mb.clients))))
+                          tuple(sorted(mb.clients)),
+                          _plain_attrs(mb, ("mtime", "sequences", "msg_keys", "uids", "attributes", "clients", "executing_tasks"))))
+        parts.append(("server", _plain_attrs(srv, ("num_rcvd_commands", "num_failed_commands", "command_durations", "folder_check_durations",
+                                                   "next_client_num", "commands_in_progress", "active_mailboxes", "clients", "active_commands"))))
         disk = []
         root = str(self.w.maildir)
         for dp, dns, fns in os.walk(root):
@@ -1217,7 +1278,7 @@ class HState:
             ms = self.model.sess.get(_sess_of(self.w, c))
             sess.append((_sess_of(self.w, c), str(cp.state), cp.mbox.name if cp.mbox else None, cp.examine, cp.idling,
                          tuple(cp.pending_notifications), tuple(ms.view) if ms else (), cp.fetch_while_pending_count,
-                         cp.select_while_selected_count))
+                         cp.select_while_selected_count, _plain_attrs(cp, ("tag", "name", "pending_notifications"))))
         led = tuple(sorted((k, max(v) if v else 0) for k, v in self.ledger.items()))
         blob = repr((parts, disk, sorted((k, repr(v)) for k, v in db.items()), sorted(sess), led,
                      sorted(self.vv_seen.items()), sorted((k, v.dead) for k, v in self.model.sess.items())))
@@ -1228,6 +1289,32 @@ class HState:
 
 
 # ------------------------------------------------------------------------------------------------
+def _plain(v, depth=0):
+    """Plain data -> hashable canonical value; anything else (objects, floats = timestamps) -> None."""
+    if isinstance(v, bool) or v is None or isinstance(v, (int, str, bytes)):
+        return ("v", v)
+    if depth > 4:
+        return None
+    if isinstance(v, (list, tuple)):
+        return ("l", tuple(_plain(x, depth + 1) for x in v))
+    if isinstance(v, (set, frozenset)):
+        return ("s", tuple(sorted((_plain(x, depth + 1) for x in v), key=repr)))
+    if isinstance(v, dict):
+        return ("d", tuple(sorted(((repr(k), _plain(x, depth + 1)) for k, x in v.items()), key=repr)))
+    return None
+
+
+def _plain_attrs(obj, exclude=()):
+    out = []
+    for k, v in sorted(vars(obj).items()):
+        if k in exclude:
+            continue
+        p = _plain(v)
+        if p is not None:
+            out.append((k, p))
+    return tuple(out)
+
+
 def _q(name: str) -> str:
     return '"' + name.replace("\\", "\\\\").replace('"', '\\"') + '"'
 
